@@ -9,6 +9,7 @@ import (
 	"path/filepath"
 	"strings"
 	"sync"
+	"syscall"
 	"sync/atomic"
 	"time"
 
@@ -48,6 +49,8 @@ func runKillCase(c *killCase) (impl, pred string) {
 	switch c.beh {
 	case "fast500":
 		kc.AfterServe = "delay:500"
+	case "busy1000":
+		kc.AfterServe = "delay:1000"
 	case "slow":
 		kc.AfterServe = "delay:4500"
 	case "ignores":
@@ -79,11 +82,18 @@ func runKillCase(c *killCase) (impl, pred string) {
 	switch c.launch {
 	case "cmd":
 		cfg.Cmd = cmd
+	case "cmdattr":
+		// the host configured process attributes of its own on the command (no new session or group)
+		cmd.SysProcAttr = &syscall.SysProcAttr{}
+		cfg.Cmd = cmd
 	case "runner":
 		cfg.RunnerFunc = func(l hclog.Logger, cm *exec.Cmd, tmpDir string) (runner.Runner, error) {
 			cmd.Env = append(cmd.Env, cm.Env...)
 			var err error
 			pr, err = newLcProcRunner(cmd)
+			if pr != nil {
+				pr.failAfterLaunch = c.beh == "startfails"
+			}
 			return pr, err
 		}
 	case "reattach":
@@ -103,7 +113,7 @@ func runKillCase(c *killCase) (impl, pred string) {
 	}
 	client := plugin.NewClient(cfg)
 	var kit Kit
-	if strings.HasPrefix(c.beh, "neverstarted") {
+	if strings.HasPrefix(c.beh, "neverstarted") || c.beh == "startfails" {
 		if _, err := client.Start(); err == nil {
 			return "setup-error", "FAIL:setup-start-succeeded"
 		}
@@ -129,6 +139,10 @@ func runKillCase(c *killCase) (impl, pred string) {
 		pid = cmd.Process.Pid
 	}
 	switch c.beh {
+	case "busy1000":
+		// a request that is still being served when Kill is called (and for long after)
+		go kit.Cmd("sleep", 30000)
+		time.Sleep(300 * time.Millisecond)
 	case "frozen":
 		go kit.Cmd("stop", 0)
 		time.Sleep(300 * time.Millisecond)
@@ -170,7 +184,7 @@ func runKillCase(c *killCase) (impl, pred string) {
 					// EVERY Kill that returns must find the process gone and reported as exited
 					if pid != 0 && pidAlive(pid) {
 						earlyReturn.Store(fmt.Sprintf("kill#%d-returned-while-plugin-alive", i))
-					} else if !client.Exited() {
+					} else if !client.Exited() && c.beh != "startfails" {
 						earlyReturn.Store(fmt.Sprintf("kill#%d-returned-before-exited-was-set", i))
 					}
 				}(i)
@@ -213,13 +227,16 @@ func runKillCase(c *killCase) (impl, pred string) {
 		pred = "FAIL:process-alive-after-kill"
 	case !reaped:
 		pred = "FAIL:process-not-reaped-after-kill"
-	case !exited:
+	case c.beh == "startfails" && (pr == nil || atomic.LoadInt32(&pr.kills) == 0):
+		pred = "FAIL:runner-of-failed-start-never-killed"
+	case !exited && c.beh != "startfails":
+		// (startfails: go-plugin never got to watch that process; only its end is claimed)
 		pred = "FAIL:exited-false-after-kill"
-	case (c.beh == "fast" || c.beh == "fast500" || c.beh == "fastlost") && c.pattern == "single" && forced && (c.proto != "netrpc" || !clean):
+	case (c.beh == "fast" || c.beh == "fast500" || c.beh == "fastlost" || c.beh == "busy1000") && c.pattern == "single" && forced && (c.proto != "netrpc" || !clean):
 		// (net/rpc: a force kill issued after the plugin had already finished its clean-up and left is the harmless
 		// shutdown race of RPCClient.Close; the clean-up marker tells the two apart)
 		pred = "FAIL:graceful-plugin-force-killed"
-	case (c.beh == "fast" || c.beh == "fast500" || c.beh == "fastlost") && c.pattern == "single" && !clean:
+	case (c.beh == "fast" || c.beh == "fast500" || c.beh == "fastlost" || c.beh == "busy1000") && c.pattern == "single" && !clean:
 		pred = "FAIL:graceful-plugin-did-not-finish-cleanup"
 	case (c.beh == "slow" || c.beh == "ignores" || c.beh == "frozen") && !forced:
 		pred = "FAIL:unresponsive-plugin-not-force-killed"
@@ -236,6 +253,7 @@ func runKillCase(c *killCase) (impl, pred string) {
 
 func init() {
 	register("C04", func(o *out, replay string) {
+		idleHostStdin()
 		if replay != "" {
 			_, m := kvLine(replay)
 			c := killCaseFromLine(m)
@@ -279,6 +297,20 @@ func init() {
 			cases = append(cases, &killCase{"netrpc", "fast", "cmd", "single"})
 		}
 		cases = append(cases, &killCase{"netrpc", "fastlost", "cmd", "single"}, &killCase{"netrpc", "fastlost", "runner", "single"})
+		// a plugin that is busy (a request in flight) when Kill arrives and needs 1 s of clean-up of its own
+		for _, proto := range []string{"netrpc", "grpc", "grpcmux"} {
+			cases = append(cases, &killCase{proto, "busy1000", "cmd", "single"})
+		}
+		cases = append(cases, &killCase{"grpc", "busy1000", "runner", "single"}, &killCase{"grpc", "busy1000", "reattach", "single"})
+		for _, proto := range []string{"netrpc", "grpc"} {
+			cases = append(cases, &killCase{proto, "ignores", "cmdattr", "single"}, &killCase{proto, "neverstarted", "cmdattr", "single"})
+		}
+		// a custom runner whose Start fails after it has created the process: Kill / CleanupClients must still end it
+		for _, proto := range []string{"netrpc", "grpc"} {
+			cases = append(cases, &killCase{proto, "startfails", "runner", "single"}, &killCase{proto, "startfails", "runner", "repeat"},
+				&killCase{proto, "startfails", "runner", "concurrent"})
+			managed = append(managed, &killCase{proto, "startfails", "runner", "cleanup"})
+		}
 		impls := make([]string, len(cases))
 		preds := make([]string, len(cases))
 		parallel(len(cases), 24, func(i int) { impls[i], preds[i] = runKillCase(cases[i]) })
